@@ -191,7 +191,13 @@ pub trait ByteReader {
         Self: Sized,
         D: Deserializable,
     {
-        let mut result = Vec::with_capacity(num_elements);
+        // `num_elements` usually comes from an untrusted length prefix: cap the up-front
+        // reservation and let the vector grow as elements are actually read, so that a
+        // corrupted prefix results in an error rather than a capacity-overflow panic or an
+        // allocation failure.
+        const MAX_PREALLOC_BYTES: usize = 1 << 16;
+        let max_prealloc = MAX_PREALLOC_BYTES / core::mem::size_of::<D>().max(1);
+        let mut result = Vec::with_capacity(num_elements.min(max_prealloc));
         for _ in 0..num_elements {
             let element = D::read_from(self)?;
             result.push(element)
